@@ -181,3 +181,34 @@ func ZZC12Gofmt() {
 	nd.Assert(count(c12OneLine, "TAG-TWICE") == count(c12Formatted, "TAG-C", "TAG-D"), "two statements separated by ';': as many reports as after gofmt")
 	nd.Assert((count(c12Formatted, "TAG-A", "TAG-B", "TAG-C", "TAG-D") == 4) == imm, "formatted version: one report per write")
 }
+
+const c12SrcGroup = `package d
+
+//«g0»
+type (
+	A struct{ X int }
+	//«g1»
+	B struct{ Y int }
+)
+
+func Write(a *A, b *B) {
+	a.X = 1 // GA
+	b.Y = 2 // GB
+}
+`
+
+// ZZC12GroupDoc: an ordinary comment inserted above a member of an annotated type ( ... ) group does not change the verdicts:
+// the group's doc applies to every member, a member's own doc adds to it.
+func ZZC12GroupDoc() {
+	g0 := nd.EnumPad("g0", " @immutable", " plain")
+	g1 := nd.EnumPad("g1", " B is the second one", " plain", " @immutable", " see @immutable above")
+	prog := nd.LoadProgram([]nd.File{{Pkg: "zzmod/d", Name: "d.go", Src: c12SrcGroup}}, []nd.Hole{{Name: "g0", Value: g0}, {Name: "g1", Value: g1}})
+	res := Analyze(prog, config.Default(), "zzmod/d", Facts{}, "imm")
+	grp := nd.HasPrefix(g0, " @immutable")
+	own := nd.HasPrefix(g1, " @immutable")
+	f := "/zz/zzmod/d/d.go"
+	CheckExact(res.Diags, []Expect{
+		{f, nd.LineOf(c12SrcGroup, "GA"), "IMM01", grp},
+		{f, nd.LineOf(c12SrcGroup, "GB"), "IMM01", nd.Or(grp, own)},
+	}, "C12 ordinary comments inside an annotated type group")
+}
